@@ -34,14 +34,21 @@ def run_one(m):
             t = subprocess.run(["/venv/bin/python", "-m", "pytest", "-q", "-p", "no:cacheprovider", "-x"], cwd=wt, capture_output=True, text=True, timeout=300)
         tests = t.stdout.strip().splitlines()[-1] if t.stdout.strip() else "?"
         env = dict(os.environ, NMEA2000_REPO=wt, VF_EVIDENCE_DIR=os.path.join(tmp, "ev"), VF_REPLAY_DIR=os.path.join(tmp, "rp"))
-        try:
-            p = subprocess.run([os.path.join(ROOT, "check"), m["check"], "--tier", "quick"], capture_output=True, text=True, timeout=1500, env=env, cwd=ROOT)
-            lines = [l for l in p.stdout.splitlines() if l.startswith("  #")]
-            res = {"exit": p.returncode, "first": lines[0][4:220] if lines else "", "tests": tests, "what": m["what"], "check": m["check"]}
-            if p.returncode not in (0, 1) or os.environ.get("SM_TAIL"):
-                res["tail"] = (p.stdout + p.stderr)[-1500:]
-        except subprocess.TimeoutExpired:
-            res = {"exit": "timeout", "tests": tests, "what": m["what"], "check": m["check"]}
+        checks = m["check"] if isinstance(m["check"], list) else [m["check"]]
+        res = None
+        for ck in checks:
+            try:
+                p = subprocess.run([os.path.join(ROOT, "check"), ck, "--tier", "quick"], capture_output=True, text=True, timeout=1500, env=env, cwd=ROOT)
+                lines = [l for l in p.stdout.splitlines() if l.startswith("  #")]
+                one = {"exit": p.returncode, "first": lines[0][4:220] if lines else "", "tests": tests, "what": m["what"], "check": ck}
+                if p.returncode not in (0, 1) or os.environ.get("SM_TAIL"):
+                    one["tail"] = (p.stdout + p.stderr)[-1500:]
+            except subprocess.TimeoutExpired:
+                one = {"exit": "timeout", "tests": tests, "what": m["what"], "check": ck}
+            if res is None or (res["exit"] == 0 and one["exit"] != 0):
+                res = one          # several checks: the first one that does not simply pass is reported
+            if res["exit"] != 0:
+                break
         res["expected"] = m.get("expect", "violation")
         return m["id"], res
     finally:
@@ -50,10 +57,10 @@ def run_one(m):
 
 
 def main():
-    muts = json.load(open(os.path.join(ROOT, "tools", "selfmut.json")))
+    muts = json.load(open(os.path.join(ROOT, "tools", "selfmut.json"))) + json.load(open(os.path.join(ROOT, "tools", "equivmut.json")))
     only = sys.argv[1:]
     if only:
-        muts = [m for m in muts if m["id"] in only or m["check"] in only]
+        muts = [m for m in muts if m["id"] in only or m["check"] in only or (only == ["E"] and m["id"].startswith("E"))]
     results = {}
     with cf.ThreadPoolExecutor(max_workers=int(os.environ.get("SM_JOBS", "2"))) as ex:
         for f in cf.as_completed([ex.submit(run_one, m) for m in muts]):
